@@ -498,6 +498,11 @@ def family_siblings():
     yield [sub("A", [fn("h", ["x"], ["a"])]), sub("B", [fn("i", ["w", "y"], ["b"]), fn("j", ["b", "w"], ["c"])], rin={"w": "a"}),
            fn("q", ["c"], ["t"])], "siblings/renamed-input-two-consumers"
     yield [sub("A", [fn("h", ["x"], ["a", "a2"])]), sub("B", [fn("i", ["a"], ["b"])]), sub("C", [fn("j", ["w"], ["c"])], rin={"w": "a2"})], "siblings/fan-out"
+    # the SAME sub-graph used twice (the first copy's outputs renamed, feeding the second); one output name is a substring
+    # of the other and the longer one is produced by the node listed first
+    step = lambda: [fn("score", ["text"], ["doc_score"]), fn("clean", ["text"], ["doc"])]  # noqa: E731
+    yield [sub("first", step(), rout={"doc": "doc1", "doc_score": "score1"}), sub("second", step(), rin={"text": "doc1"}),
+           fn("report", ["doc", "doc_score"], ["rep"])], "siblings/reused-subgraph-substring-outputs"
 
 
 def family_gate_signals():
